@@ -219,6 +219,42 @@ def case_keysplit(ctx, inp):
     ctx.branch("keysplit-" + ("Other" if r == "Other" else "data" if r == "data" else "name"))
 
 
+def case_misc(ctx, inp):
+    """non-string arguments (documented): numbers pass through, timedeltas are total seconds, None stays None"""
+    import datetime
+    from dask.utils import parse_bytes, parse_timedelta
+    kind, v = inp["kind"], inp["v"]
+    if kind == "bytes-int":
+        if parse_bytes(v) != v or type(parse_bytes(v)) is not int:
+            ctx.fail("parse_bytes(int) is not the identity", observed=[v, parse_bytes(v)])
+    elif kind == "bytes-float":
+        x = v / 4
+        if parse_bytes(x) != int(x):
+            ctx.fail("parse_bytes(float) is not int(float)", observed=[x, parse_bytes(x)])
+    elif kind == "td-none":
+        if parse_timedelta(None) is not None:
+            ctx.fail("parse_timedelta(None) is not None")
+    elif kind == "td-delta":
+        d = datetime.timedelta(milliseconds=v)
+        r = parse_timedelta(d)
+        want = d.total_seconds()
+        if r != want or (int(want) == want) != isinstance(r, int):
+            ctx.fail("parse_timedelta(timedelta) is not its total seconds (int when integral)", observed=[v, repr(r)])
+    elif kind == "td-number":
+        x = v / 4
+        for unit, mult in (("seconds", 1), ("ms", 1e-3), ("h", 3600)):
+            r = parse_timedelta(x, default=unit)
+            want = float(str(x)) * mult
+            if r != want or (int(want) == want) != isinstance(r, int):
+                ctx.fail("parse_timedelta(number, default=unit) is not number * unit", observed=[x, unit, repr(r)], expected=want)
+        try:
+            parse_timedelta(x, default=False)
+            ctx.fail("parse_timedelta(number, default=False) did not raise ValueError")
+        except ValueError:
+            pass
+    ctx.branch("misc-" + kind)
+
+
 def case_tables(ctx, inp):
     """the tables in the code are the documented ones"""
     import dask.utils as du
@@ -234,7 +270,7 @@ def case_tables(ctx, inp):
 
 
 CASES = {"fmt": case_fmt, "parse": case_parse, "td": case_td, "natsort": case_natsort, "keysplit": case_keysplit,
-         "tables": case_tables}
+         "tables": case_tables, "misc": case_misc}
 
 
 def _casings(rng, u, k=3):
@@ -260,6 +296,10 @@ def generate(ctx):
     rng = ctx.rng
     byte_sizes, td_sizes = _tables()
     yield "tables", {}
+    yield "misc", {"kind": "td-none", "v": 0}
+    for _ in range(ctx.n(40, 400)):
+        yield "misc", {"kind": rng.choice(["bytes-int", "bytes-float", "td-delta", "td-number"]),
+                       "v": rng.choice([0, 1, 2, 3, 100, 1500, 86400000, rng.randrange(0, 10 ** 7)])}
     # ---- format_bytes: boundaries, rounding edges, the finding's boundary, magnitudes
     yield "fmt", {"n": 2 ** 60 - 1}
     for d in (-3, -2, -1, 0, 1, 2):
@@ -331,7 +371,10 @@ def generate(ctx):
         yield "keysplit", {"kind": "doc", "s": "", "i": i}
     kalpha = "abcdefxyz0123456789-_'(),.<> \""
     words = ["x", "hello", "world", "abcdefab", "deadbeef", "ae05086432ca935f6eba409a8ecd4896", "<a.b.C object at 0x1>",
-             "1", "22", "", "-", "('x', 1)", "_(x)", "getitem", "0abc", "<>", "< >"]
+             "1", "22", "", "-", "('x', 1)", "_(x)", "getitem", "0abc", "<>", "< >",
+             "ae05086432ca935f6eba409a8ecd489", "ae05086432ca935f6eba409a8ecd48961", "ge05086432ca935f6eba409a8ecd4896",
+             "AE05086432CA935F6EBA409A8ECD4896", "abcdefgh", "abcdefg", "abcdefabc", "gbcdefab", "Abcdefab",
+             "<a.b object>", "<a b.c d>", "<<x>>", "x,y", "(x,y)", "'x'", "\"x\"", "_x_", "x y", "<.>", "<a.>"]
     for _ in range(ctx.n(500, 5000)):
         if rng.random() < 0.6:
             s = "-".join(rng.choice(words) for _ in range(rng.randint(1, 4)))
